@@ -11,6 +11,7 @@ import Penguin.Lemmas.BindPair
 import Penguin.Lemmas.BindStim
 import Penguin.Lemmas.PairCor
 import Penguin.Lemmas.PairHarness
+import Penguin.Lemmas.BindAllReach
 
 namespace Penguin.C15
 open Penguin Penguin.Mux
@@ -373,5 +374,175 @@ private def mhist : List (Pair.Side × Pair.Stim) :=
 example : ((Pair.stimRun (Pair.init mcfgA mcfgB [7, 8, 11] [9, 10]) mhist).map
     (fun q => (q.gb.rlog 0, q.b.held.map (fun r => (r.fid, r.replied)), lookup q.a.flows 8))) =
     some ([1, 2, 3], [(8, true)], none) := by decide
+
+
+/-! ### Two endpoints, EVERY history: stream and datagram traffic, faults and connection end included
+
+`Model/PairAll.lean`: two endpoint models at the stimulus level — ANY `Mux.Op` call at either side (streams,
+datagrams, bind calls, `dropMux`, dropped handles …), deliveries from the head of a wire, cuts, Close — under the
+only hypothesis `PairAll.Cfg` (the two id scripts together are duplicate-free).  Beside `Mux.Ghost`, each side
+has an OBSERVER of its bind traffic (`BindAll.runB`, `Lemmas/BindAllMain.lean`): the list of `BindAll.BEv`
+events, in order, computed from the calls, their results and the emitted events —
+`asked req fid bt host port` (a `request_bind` call number `req` queued its `Bind` frame; `fid` is the flow id
+the call drew), `done req r` (`Ev.bindDone`), `shown k fid bt host port` (`next_bind_request` returned
+`BindRequest` number `k`), `replied k acc` (`reply(acc)` on number `k` returned `Ok`), `dropped k`,
+`muxDropped`.  `(runB q l).p = PairAll.run q.p l` (`BindAll.runB_p`): the run is the run of the pair model.
+
+Proof (`Lemmas/BindAll*.lean`): a bind VIEW of an endpoint covering all flow ids (flow table, ids of the stream
+objects, script, inbox, outbound queue, bind queue, parked hand-over, held `BindRequest`s …), 19 atomic view
+changes labelled with the messages sent and the events recorded, a simulation of every function of the
+endpoint model by those changes (`BSim`), and an invariant on the pair of views: the id discipline per flow
+id (a numeric summary, `Num`), "every request under way, waiting or shown was asked with exactly these
+fields", "every `Finish x` travelling back to the side that asked with `x` is backed by a shown and accepted
+`BindRequest` of `x`". -/
+
+open Penguin.BindAll Penguin.PairAll in
+/-- `true` ONLY IF the peer application accepted that very request — in every history.  Whatever happens on
+    the connection (streams opened, written, reset, handles dropped, datagrams, other bind requests, frames
+    lost in a cut, either `Multiplexor` dropped, either task winding down): if a bind request number `req` of
+    one side resolved `accepted`, then that side made a request number `req` which drew some flow id `x` and
+    asked for `(bt, host, port)`, the OTHER application was shown a `BindRequest` (number `k`) with exactly
+    that flow id, bind type, host bytes and port, and its `reply(true)` on that very `BindRequest` went through.
+    Both directions.  (With request numbers that are not reused the asked record is the request; in any
+    case a flow id names at most one request, see the next theorem.) -/
+theorem pair_bind_true_only_if_peer_accepted_every_history (oa ob : Opts) {ra rb : List Nat} (cfg : PairAll.Cfg ra rb)
+    (l : List (PairAll.Side × PairAll.Stim)) (req : Nat) :
+    let q := runB { p := PairAll.init oa ob ra rb } l
+    (BEv.done req .accepted ∈ q.ha →
+      ∃ x bt host port k, BEv.asked req x bt host port ∈ q.ha ∧ BEv.shown k x bt host port ∈ q.hb ∧
+        BEv.replied k true ∈ q.hb) ∧
+    (BEv.done req .accepted ∈ q.hb →
+      ∃ x bt host port k, BEv.asked req x bt host port ∈ q.hb ∧ BEv.shown k x bt host port ∈ q.ha ∧
+        BEv.replied k true ∈ q.ha) := by
+  intro q
+  have h := reach_inv oa ob cfg l
+  exact ⟨h.l.glob req, h.r.glob req⟩
+
+open Penguin.BindAll Penguin.PairAll in
+/-- The peer application is shown ONLY what was asked, at most once — in every history.  Every `BindRequest`
+    an application is ever shown carries the flow id, bind type, host bytes and port of a request the other
+    application made (nothing is invented, nothing altered, also not by stream or datagram traffic, faults
+    or the connection ending); per flow id at most one `BindRequest` is ever shown, and a flow id names at
+    most one request (so the asked record is unique, and no request is shown twice).  Both directions. -/
+theorem pair_bind_shown_only_what_was_asked_every_history (oa ob : Opts) {ra rb : List Nat} (cfg : PairAll.Cfg ra rb)
+    (l : List (PairAll.Side × PairAll.Stim)) :
+    let q := runB { p := PairAll.init oa ob ra rb } l
+    (∀ k x bt host port, BEv.shown k x bt host port ∈ q.hb → ∃ req, BEv.asked req x bt host port ∈ q.ha) ∧
+    (∀ k x bt host port, BEv.shown k x bt host port ∈ q.ha → ∃ req, BEv.asked req x bt host port ∈ q.hb) ∧
+    (∀ x, q.hb.countP (isShown x) ≤ 1 ∧ q.ha.countP (isShown x) ≤ 1) ∧
+    (∀ x, q.ha.countP (isAsked x) ≤ 1 ∧ q.hb.countP (isAsked x) ≤ 1) := by
+  intro q
+  have h := reach_inv oa ob cfg l
+  have hsh : ∀ (c : BC), (∀ x, Num (sm x c)) → ∀ x, c.gb.countP (isShown x) ≤ 1 ∧ c.ga.countP (isAsked x) ≤ 1 := by
+    intro c hn x
+    have h1 := (hn x).l.nobind
+    have h2 := (hn x).l.binda
+    simp only [sm] at h1 h2
+    omega
+  refine ⟨fun k x bt host port hs => h.l.asked x bt host port (Or.inr (Or.inr (Or.inr ⟨k, hs⟩))),
+    fun k x bt host port hs => h.r.asked x bt host port (Or.inr (Or.inr (Or.inr ⟨k, hs⟩))), ?_, ?_⟩
+  · intro x; exact ⟨(hsh _ h.num x).1, (hsh _ h.swap.num x).1⟩
+  · intro x; exact ⟨(hsh _ h.num x).2, (hsh _ h.swap.num x).2⟩
+
+open Penguin.BindAll Penguin.PairAll in
+/-- The flow id of a bind request is never a stream's — in every history.  Once a `request_bind` call drew
+    flow id `x`, then at every later moment: no stream object on either endpoint carries `x`, the answering
+    endpoint has no slot for `x`, and the asking endpoint's slot for `x`, if any, is that of a pending bind
+    request (so neither stream traffic nor a stale frame can stand for the answer: the `Finish x` that
+    resolves the request can only come from `reply(true)`). -/
+theorem pair_bind_id_carries_no_stream_every_history (oa ob : Opts) {ra rb : List Nat} (cfg : PairAll.Cfg ra rb)
+    (l : List (PairAll.Side × PairAll.Stim)) (req x : Nat) (bt : BindType) (host : Bytes) (port : Nat) :
+    let q := runB { p := PairAll.init oa ob ra rb } l
+    BEv.asked req x bt host port ∈ q.ha →
+      (∀ o ∈ q.p.a.objs, o.fid ≠ x) ∧ (∀ o ∈ q.p.b.objs, o.fid ≠ x) ∧ lookup q.p.b.flows x = none ∧
+      (lookup q.p.a.flows x = none ∨ ∃ r, lookup q.p.a.flows x = some (.bindRequested r)) := by
+  intro q ha
+  have h : Inv (absB q) := reach_inv oa ob cfg l
+  have hb := (h.num x).l.binda (one_le_asked ha)
+  simp only [sm, absB, bview] at hb
+  obtain ⟨_, _, _, hrq, hes, hbb, hrb, heb, hfa, hfb, _⟩ := hb
+  have nofid : ∀ (objs : List Obj), (objs.map (·.fid)).count x = 0 → ∀ o ∈ objs, o.fid ≠ x := by
+    intro objs h0 o ho he
+    have : x ∈ objs.map (·.fid) := List.mem_map.mpr ⟨o, ho, he⟩
+    exact absurd (List.count_pos_iff.mpr this) (by omega)
+  refine ⟨nofid _ hfa, nofid _ hfb, ?_, ?_⟩
+  · cases hl : lookup q.p.b.flows x with
+    | none => rfl
+    | some s =>
+      have hm := lookup_mem _ _ _ hl
+      cases s with
+      | requested r => exact absurd (one_le_countP_of_mem hm (P := isRQ x) (by simp)) (by omega)
+      | bindRequested r => exact absurd (one_le_countP_of_mem hm (P := isBR x) (by simp)) (by omega)
+      | established i => exact absurd (one_le_countP_of_mem hm (P := isES x) (by simp)) (by omega)
+  · cases hl : lookup q.p.a.flows x with
+    | none => exact Or.inl rfl
+    | some s =>
+      have hm := lookup_mem _ _ _ hl
+      cases s with
+      | requested r => exact absurd (one_le_countP_of_mem hm (P := isRQ x) (by simp)) (by omega)
+      | bindRequested r => exact Or.inr ⟨r, rfl⟩
+      | established i => exact absurd (one_le_countP_of_mem hm (P := isES x) (by simp)) (by omega)
+
+open Penguin.BindAll Penguin.PairAll in
+/-- The records are those of the run of `Model/PairAll.lean`: the pair state after the run with records is
+    the pair state after the run. -/
+theorem bind_records_follow_the_pair_run (oa ob : Opts) (ra rb : List Nat) (l : List (PairAll.Side × PairAll.Stim)) :
+    (runB { p := PairAll.init oa ob ra rb } l).p = PairAll.run (PairAll.init oa ob ra rb) l :=
+  runB_p _ l
+
+/-! Non-vacuity (the hypotheses of the implications above are met by concrete reachable states; `b` takes up
+    to two bind requests, scripts `[7, 8, 11]` and `[9, 10]`). -/
+private def allB : Mux.Opts := { bindCap := 2 }
+example : PairAll.Cfg [7, 8, 11] [9, 10] := ⟨by decide, by decide, by decide⟩
+
+open Penguin.BindAll Penguin.PairAll in
+/-- (1) A bind request accepted while a stream transfers data: `a` opens a stream (flow 7), asks for a bind
+    (flow 8) and writes three bytes; `b` is delivered the `Bind` frame and the data, takes the request, accepts
+    it and reads the bytes; `a` is delivered the answer. -/
+private def hist1 : List (PairAll.Side × PairAll.Stim) :=
+  [(.A, .call (.open 1 [104] 80)), (.B, .deliver), (.A, .deliver), (.B, .call .accept),
+   (.A, .call (.bindReq 5 .stream [97] 81)), (.A, .call (.write 0 [1, 2, 3])), (.B, .deliver), (.B, .deliver),
+   (.B, .call .bindNext), (.B, .call (.bindReply 0 true)), (.B, .call (.read 0 9)), (.A, .deliver)]
+open Penguin.BindAll Penguin.PairAll in
+example :
+    let q := runB { p := PairAll.init {} allB [7, 8, 11] [9, 10] } hist1
+    q.ha = [.asked 5 8 .stream [97] 81, .done 5 .accepted] ∧ q.hb = [.shown 0 8 .stream [97] 81, .replied 0 true] ∧
+    q.p.gb.returned = [(0, [1, 2, 3])] := by decide
+
+-- … and while the request is pending (after the 6th stimulus) its id 8 has a `BindRequested` slot at `a`, flow 7 a stream
+open Penguin.BindAll Penguin.PairAll in
+example :
+    let q := runB { p := PairAll.init {} allB [7, 8, 11] [9, 10] } (hist1.take 6)
+    BEv.asked 5 8 .stream [97] 81 ∈ q.ha ∧ lookup q.p.a.flows 8 = some (.bindRequested 5) ∧
+    lookup q.p.a.flows 7 = some (.established 0) := by decide
+
+open Penguin.BindAll Penguin.PairAll in
+/-- (2) A bind request whose answer is lost in a cut: `b`'s application accepts, the `Finish` is on the wire
+    when `a`'s source fails; `a`'s task winds down and the request resolves `refused` — NOT `accepted`, although
+    the peer accepted (the theorem is an "only if"; the connection ended first). -/
+private def hist2 : List (PairAll.Side × PairAll.Stim) :=
+  [(.A, .call (.bindReq 5 .stream [97] 81)), (.B, .deliver), (.B, .call .bindNext), (.B, .call (.bindReply 0 true)),
+   (.A, .cut false)]
+open Penguin.BindAll Penguin.PairAll in
+example :
+    let q := runB { p := PairAll.init {} allB [7, 8, 11] [9, 10] } hist2
+    q.ha = [.asked 5 7 .stream [97] 81, .done 5 .refused] ∧ q.hb = [.shown 0 7 .stream [97] 81, .replied 0 true] ∧
+    q.p.a.dead = true ∧ q.p.ba = [] := by decide
+-- just before the cut the answer is in transit
+open Penguin.BindAll Penguin.PairAll in
+example : (runB { p := PairAll.init {} allB [7, 8, 11] [9, 10] } (hist2.take 4)).p.ba = [.frame (.finish 7)] := by decide
+
+open Penguin.BindAll Penguin.PairAll in
+/-- (3) Two bind requests answered in reverse order: `b` accepts the second and rejects the first; the answers
+    travel back; request 2 resolved `accepted`, request 1 `refused`, each shown once with its own fields. -/
+private def hist3 : List (PairAll.Side × PairAll.Stim) :=
+  [(.A, .call (.bindReq 1 .stream [97] 80)), (.A, .call (.bindReq 2 .datagram [98] 81)), (.B, .deliver), (.B, .deliver),
+   (.B, .call .bindNext), (.B, .call .bindNext), (.B, .call (.bindReply 1 true)), (.B, .call (.bindReply 0 false)),
+   (.A, .deliver), (.A, .deliver)]
+open Penguin.BindAll Penguin.PairAll in
+example :
+    let q := runB { p := PairAll.init {} allB [7, 8, 11] [9, 10] } hist3
+    q.ha = [.asked 1 7 .stream [97] 80, .asked 2 8 .datagram [98] 81, .done 2 .accepted, .done 1 .refused] ∧
+    q.hb = [.shown 0 7 .stream [97] 80, .shown 1 8 .datagram [98] 81, .replied 1 true, .replied 0 false] := by decide
 
 end Penguin.C15
